@@ -41,13 +41,13 @@ import (
 )
 
 type ICSCase struct {
-	Shape    string `json:"shape"`    // direct | via | child-reverts | tx-fails
-	Role     string `json:"role"`     // sender argument: origin | self (the calling contract)
-	Denom    string `json:"denom"`    // native | erc20
-	Amt      string `json:"amt"`      // decimal, or "balance+1"
-	Value    string `json:"value"`    // tx value (wei)
-	Approve  string `json:"approve"`  // "" (none) | decimal limit (origin approves the contract first)
-	Receiver string `json:"receiver"` // ok | bad
+	Shape    string `json:"shape"`             // direct | via | child-reverts | tx-fails
+	Role     string `json:"role"`              // sender argument: origin | self (the calling contract)
+	Denom    string `json:"denom"`             // native | erc20
+	Amt      string `json:"amt"`               // decimal, or "balance+1"
+	Value    string `json:"value"`             // tx value (wei)
+	Approve  string `json:"approve"`           // "" (none) | decimal limit (origin approves the contract first)
+	Receiver string `json:"receiver"`          // ok | bad
 	Timeout  string `json:"timeout,omitempty"` // "" (a height) | none (height and timestamp both zero) | timestamp
 }
 
@@ -355,8 +355,8 @@ func runICS(t *testing.T, c ICSCase, class func(string)) (discs []icsDisc, nontr
 			evs = append(evs, sdk.Event(ev))
 		}
 		if packet, err := ibcgotesting.ParsePacketFromEvents(evs); err == nil {
-			if err := e.path.RelayPacket(packet); err != nil {
-				class("relay-failed")
+			if why := e.relay(e.path.EndpointA, e.path.EndpointB, packet); why != "" {
+				class("relay-pending")
 			}
 			e.sync()
 		}
